@@ -644,11 +644,18 @@ fn transports(v: &Verdicts, sessions: usize, rng: &mut Rng) -> (u64, BTreeSet<St
                     during_ok = false;
                     during_detail = format!("while connected: model {:?} got {:?}", model, got);
                 }
-                for (k, c) in conns.into_iter().enumerate() {
-                    if k % 2 == 0 {
-                        c.close();
-                    } else {
-                        drop(c); // abrupt close without a close frame
+                for (k, mut c) in conns.into_iter().enumerate() {
+                    match (k + i) % 4 {
+                        0 => c.close(),
+                        1 => drop(c), // abrupt close without a close frame
+                        2 => {
+                            // replies left unread + reset: the server's event loop gets an error, not an end of stream
+                            c.send_text("get $connections");
+                            c.send_text("keys");
+                            std::thread::sleep(Duration::from_millis(2));
+                            c.reset();
+                        }
+                        _ => c.protocol_error(),
                     }
                 }
             }
